@@ -362,7 +362,7 @@ def body(chk):
   _lru_part(chk, b)
   _lazy_part(chk, b)
   chk.assumptions += [
-      'callables come from a fixed library (inc, add, tick, boom, box) defined identically in TLA+ and Python',
+      'callables come from a fixed library (inc, add, kwf (keyword arguments), tick, boom, box) defined identically in TLA+ and Python',
       'the LazyFn / LazyObject cache bound is set to the spec Cap for the run through the cache object reachable from result_.cache_info',
       'lazy_result_ (results returned as references) is exercised by the remote-evaluation property C14, not here',
   ]
